@@ -411,7 +411,7 @@ func main() {
 		}
 		fmt.Fprintln(os.Stderr, "no such obligation")
 	case "verify", "check":
-		os.Exit(runCheck(repo, os.Args[1], os.Args[2:]))
+		os.Exit(runCheckGuarded(repo, os.Args[1], os.Args[2:]))
 	case "replay":
 		os.Exit(runReplay(repo, os.Args[2:]))
 	default:
@@ -423,6 +423,43 @@ type funcReport struct {
 	Name string
 	Err  error
 	fe   *FuncEnc
+}
+
+// runCheckGuarded: the generator itself must not be the thing that dies.  A Go panic while loading or encoding the code
+// (on the unchanged tree it never happens; on changed code it means the code has left the subset the generator handles,
+// e.g. a generic function) leaves the property undecided, which is reported as a violation of the obligation
+// "engine/generate" -- never as exit status 2 with a stack trace, and never as a pass.
+func runCheckGuarded(repo, mode string, args []string) (rc int) {
+	defer func() {
+		r := recover()
+		if r == nil {
+			return
+		}
+		msg := fmt.Sprintf("%v", r)
+		if ee, ok := r.(*EngineError); ok {
+			msg = ee.msg
+		}
+		stack := string(debug.Stack())
+		fmt.Printf("ENGINE-ERROR engine: %s\n", msg)
+		if mode != "check" || len(args) < 1 {
+			fmt.Fprintln(os.Stderr, stack)
+			rc = 3
+			return
+		}
+		prop := args[0]
+		rf := &ReplayFile{Property: prop, Obligation: "engine/generate", Kind: "generate", Clause: "the obligations can be generated from the contracts and the current code",
+			Status: "undecided", Solver: "bornovc", Output: truncate(msg+"\n"+stack, 6000),
+			Note: "the generator could not process the current code; no failing input was confirmed against the real code (no-failing-input-found)"}
+		out := filepath.Join(outDir(), "replays", prop)
+		os.MkdirAll(out, 0o755)
+		path := filepath.Join(out, "engine-generate.json")
+		b, _ := json.MarshalIndent(rf, "", " ")
+		os.WriteFile(path, b, 0o644)
+		fmt.Printf("VIOLATION property=%s replay=%s no-failing-input-found\n", prop, path)
+		fmt.Printf("  failed obligation: engine/generate status=undecided\n  reason: %s\n", msg)
+		rc = 1
+	}()
+	return runCheck(repo, mode, args)
 }
 
 func runCheck(repo, mode string, args []string) int {
@@ -514,7 +551,7 @@ func runCheck(repo, mode string, args []string) int {
 	// dependency closure: a property's proof rests on the contracts of every function its tagged obligations call by
 	// contract (or inline, or havoc), transitively.  All obligations of those functions belong to the check, whatever
 	// their own tags say: a change inside a callee is noticed only through the callee's own obligations.
-	if prop != "" && prop != "C07" {
+	if prop != "" {
 		byName := map[string]*FuncEnc{}
 		for _, fe := range encs {
 			byName[fe.name] = fe
@@ -529,8 +566,9 @@ func runCheck(repo, mode string, args []string) int {
 			}
 		}
 		for _, o := range selected {
-			if strings.HasPrefix(o.Kind, "safety.") || o.Kind == "cover" || o.Kind == "lemma" {
-				continue
+			if (strings.HasPrefix(o.Kind, "safety.") && prop != "C07") || o.Kind == "cover" || o.Kind == "lemma" {
+				continue // (every function has safety obligations: only for C07, which is about them, are they roots. A safety
+				// proof rests on the preconditions and invariants of its function, so C07's closure is nearly everything.)
 			}
 			if frontEnd[prop] && (strings.HasPrefix(o.Func, "interpreter.") || strings.HasPrefix(o.Func, "environment.")) {
 				continue // tagged obligations there stay selected, but the closure does not start from them
